@@ -11,8 +11,8 @@ MUT = [
  ('residual_wrong_node', 'pySDC/core/sweeper.py', "            L.residual[m] += L.u[0] - L.u[m + 1]", "            L.residual[m] += L.u[0] - L.u[m]", ['C03', 'C02']),
  ('residual_last_abs', 'pySDC/core/sweeper.py', "        elif L.params.residual_type == 'last_abs':\n            L.status.residual = res_norm[-1]", "        elif L.params.residual_type == 'last_abs':\n            L.status.residual = res_norm[0]", ['C03']),
  ('iter_conv_gt', 'pySDC/implementations/convergence_controller_classes/check_convergence.py', "iter_converged = S.status.iter >= S.params.maxiter", "iter_converged = S.status.iter > S.params.maxiter", ['C03']),
- ('residual_before_recv', 'pySDC/implementations/controller_classes/controller_nonMPI.py', "            self.send_full(S, level=0)\n            self.recv_full(S, level=0)\n            # compute the residual\n            S.levels[0].sweep.compute_residual(stage='IT_CHECK')", "            S.levels[0].sweep.compute_residual(stage='IT_CHECK')\n            self.send_full(S, level=0)\n            self.recv_full(S, level=0)", ['C03', 'C01']),
- ('restrict_skip_tau', 'pySDC/core/base_transfer.py', "        if F.tau[0] is not None:\n            # restrict possible tau correction in space", "        if False:\n            # restrict possible tau correction in space", ['C10', 'C01']),
+ ('residual_before_recv', 'pySDC/implementations/controller_classes/controller_nonMPI.py', "            # send updated values forward\n            self.send_full(S, level=0)\n            # receive values\n            self.recv_full(S, level=0)\n            # compute current residual\n            S.levels[0].sweep.compute_residual(stage='IT_CHECK')", "            S.levels[0].sweep.compute_residual(stage='IT_CHECK')\n            self.send_full(S, level=0)\n            self.recv_full(S, level=0)", ['C03', 'C01']),
+ ('restrict_skip_tau', 'pySDC/core/base_transfer.py', "        if F.tau[0] is not None:\n            # restrict possible tau correction from fine in space", "        if False:\n            # restrict possible tau correction from fine in space", ['C10', 'C01']),
  ('prolong_full_value', 'pySDC/core/base_transfer.py', "            tmp_u.append(self.space_transfer.prolong(G.u[m] - G.uold[m]))\n\n        # interpolate values in collocation\n        for n in range(1, SF.coll.num_nodes + 1):\n            for m in range(SG.coll.num_nodes):\n                F.u[n] += self.Pcoll[n - 1, m] * tmp_u[m]\n\n        # re-evaluate", "            tmp_u.append(self.space_transfer.prolong(G.u[m] - G.uold[m] * 0.5))\n\n        # interpolate values in collocation\n        for n in range(1, SF.coll.num_nodes + 1):\n            for m in range(SG.coll.num_nodes):\n                F.u[n] += self.Pcoll[n - 1, m] * tmp_u[m]\n\n        # re-evaluate", ['C10']),
  ('tau_sign', 'pySDC/core/base_transfer.py', "            G.tau[m] = tauFG[m] - tauG[m]", "            G.tau[m] = tauFG[m] + tauG[m]", ['C10', 'C01']),
  ('fd_wrap_diag', 'pySDC/helpers/problem_helper.py', "                A_1d += coeff[i] * sp.eye(size, k=-size + steps[i])", "                A_1d += coeff[i] * sp.eye(size, k=-size + steps[i] + 1)", ['C18']),
